@@ -69,9 +69,10 @@ class Ctx:
         self.stats[name] = self.stats.get(name, 0) + k
 
     # -- oracle ------------------------------------------------------------
-    def fail(self, description: str, features: dict, replay: dict):
-        """the property itself fails on the implementation at a concrete input"""
-        self.failures.append({"description": description, "features": features, "replay": replay})
+    def fail(self, description: str, features: dict, replay: dict, lines=None):
+        """the property itself fails on the implementation at a concrete input. `lines`: the protocol lines (cases) this observation was
+        made on - a known finding whose defect the model reproduces excuses the failure only while model and implementation agree on them"""
+        self.failures.append({"description": description, "features": features, "replay": replay, "lines": list(lines or [])})
 
     def out_of_time(self) -> bool:
         return self.deadline is not None and time.time() > self.deadline
@@ -199,8 +200,13 @@ def main():
     known = [k for k in load_known() if k["property"] == prop_id and k.get("status") == "known"]
     seen_known: dict[str, int] = {}
     new_failures = []
+    diff_lines = {d.get("line") for d in diffs}
     for fl in ctx.failures:
         hit = next((k for k in known if sig_matches(k["signature"], fl["features"])), None)
+        if hit and hit.get("model_reproduces") and any(l in diff_lines for l in fl.get("lines", [])):
+            # the model has the known defect too, yet here the implementation does something else: not the known finding
+            fl["description"] += f" [matches the signature of {hit['id']}, but the model - which reproduces {hit['id']} - disagrees with the implementation here]"
+            hit = None
         if hit:
             seen_known[hit["id"]] = seen_known.get(hit["id"], 0) + 1
         else:
